@@ -141,7 +141,7 @@ def merge_blocks(spec, c, nmerges=2):
   return done
 
 
-def true_loop(c, uid):
+def _true_loop_one(c, uid):
   """Block-level AND bit-level cyclic designs.
   kinds: or_ring / mux (must converge), inv_ring_odd (never converges),
   inv_ring_even (converges), plus_ring (converges iff in0 == 0)."""
@@ -237,3 +237,63 @@ def once_in_cycle_source(c, uid):
     L.append("    def up%d():" % i)
     L.append("      s.x%d @= s.x%d | s.in0" % (i, (i - 1) % n))
   return "\n".join(L) + "\n"
+
+
+def _rename_spec(spec, suf):
+  """suffix every signal / block / struct name of a single-class spec (in place)"""
+  from .spec import walk_exprs, walk_stmts
+  import re
+  cd = spec["comps"]["Top"]
+
+  def rn_path(p):
+    if p and p[0][0] == "a":
+      p[0][1] = p[0][1] + suf
+    for st in p:
+      if st[0] in ("vi", "vb"):
+        rn_expr(st[1])
+
+  def rn_expr(e):
+    for x in walk_exprs(e):
+      if x[0] == "rd" and not x[1][0][1].endswith(suf):
+        rn_path(x[1])
+  for sg in cd["signals"]:
+    sg["name"] += suf
+    if isinstance(sg["type"], str):
+      sg["type"] += suf
+  spec["structs"] = {k + suf: v for k, v in spec["structs"].items()}
+  for it in cd["items"]:
+    if it["k"] == "connect":
+      rn_path(it["a"])
+      if not isinstance(it["b"], dict):
+        rn_path(it["b"])
+    elif it["k"] in ("comb", "ff"):
+      it["name"] += suf
+      for st in walk_stmts(it["stmts"]):
+        if st[0] == "assign":
+          rn_path(st[1])
+          rn_expr(st[2])
+        elif st[0] == "if":
+          rn_expr(st[1])
+    elif it["k"] == "constraint":
+      it["src"] = re.sub(r"\b(up\w+)\b", lambda m: m.group(1) + suf, it["src"])
+  return spec
+
+
+def true_loop(c, uid):
+  """one cyclic group, or (30 %) two independent ones in the same component: every cyclic group gets its
+  own fixed-point super-block, each of which must iterate ITS blocks"""
+  spec, meta = _true_loop_one(c, uid)
+  if c.random() >= 0.3:
+    return spec, meta
+  spec2, meta2 = _true_loop_one(c, uid)
+  _rename_spec(spec2, "_q")
+  a, b = spec["comps"]["Top"], spec2["comps"]["Top"]
+  a["signals"] += b["signals"]
+  a["items"] += b["items"]
+  c.shuffle(a["items"])
+  spec["structs"].update(spec2["structs"])
+  spec["profile"] += "+" + spec2["profile"]
+  meta = {"kind": meta["kind"] + "+" + meta2["kind"], "n": meta["n"] + meta2["n"],
+          "must_converge": meta["must_converge"] and meta2["must_converge"],
+          "never_converges": meta["never_converges"] or meta2["never_converges"]}
+  return spec, meta
